@@ -168,6 +168,7 @@ func Spec(prop, tier string) *core.CheckSpec {
 			Rule: "seeded histories of push/pop/require/release/soft-stop/hard-stop/clock-advance on the context stack through the Go API, limits and amounts from {0,1,2,small,b-1,b,b+1 around the remaining budget,2^32,2^63,2^64-1}, simulated clock; every operation checked against an exact-arithmetic reference model (conservation ledger). non-trivial = some context was killed or at least two contexts were nested; distinct = hash of the operation history",
 			Batches: []core.Batch{
 				{Engine: "ctx", Mode: "", Runs: n(300000, 30000000), Millis: ms(30000, 900000), Chunk: 20000},
+				{Engine: "ctxlua", Mode: "", Runs: n(8000, 800000), Millis: ms(20000, 400000), Chunk: 2000, HangS: 60, Note: "the same laws at the Lua level (lib/runtimelib): generated nestings of runtime.callcontext - direct, inside pcall, inside a coroutine - with hard/soft limits and flags from the tape; every level reports runtime.context() before the call, on entry, while working and after; oracle L1-L7 is arithmetic over those reports (child budget = min(requested, what the parent had left), soft <= hard, flags inherited, status/results/errors truthful, used < kill, parent charged, due, total work within the outermost limit)"},
 			},
 			Real:   []string{"runtime.Runtime context manager (PushContext/PopContext/Require*/Release*/SetStopLevel/Due), unmodified"},
 			Stub:   []string{"wall clock (simulated through the verifClock hook)", "the host driver recovers termination panics as CallContext does"},
